@@ -489,8 +489,8 @@ func (pk *Packet) ConnectValidate() Code {
 		}
 	}
 
-	if !pk.Connect.WillFlag && pk.Connect.WillRetain {
-		return ErrProtocolViolationWillFlagSurplusRetain // [MQTT-3.1.2-13]
+	if !pk.Connect.WillFlag && (pk.Connect.WillRetain || pk.Connect.WillQos > 0) {
+		return ErrProtocolViolationWillFlagSurplusRetain // [MQTT-3.1.2-11] [MQTT-3.1.2-13]
 	}
 
 	return CodeSuccess
